@@ -10,11 +10,12 @@ for f in sorted(glob.glob(os.path.join(vd, "meta", "C*.json"))):
     i = os.path.basename(f)[:-5]
     ids.append(i)
     meta[i] = json.load(open(f))
+ready = set(open(os.path.join(vd, "ready.txt")).read().split())
 checks, na = [], []
 for p in props:
     i = p["id"]
     m = meta.get(i, {})
-    if i in ids and m.get("claimed", True):
+    if i in ids and i in ready and m.get("claimed", True):
         checks.append({
             "property_id": i,
             "quick_cmd": "./check %s quick" % i,
